@@ -105,7 +105,10 @@ def _make_builtin_spy(base, name, mapping=False):
         return base.__ne__(self, o)
 
     def __bool__(self):
-        LOG.append((self._tag, 'bool', None))
+        # who asks: a callable the user placed in a validator (a predicate of vlib/hintenv.py) may; the checking code may not
+        import sys as _sys
+        fn = _sys._getframe(1).f_code.co_filename
+        LOG.append((self._tag, 'bool' if fn.endswith('hintenv.py') else 'truth-test', None))
         return base.__len__(self) > 0
 
     ns.update(__len__=__len__, __iter__=__iter__, __contains__=__contains__, __repr__=__repr__,
